@@ -177,6 +177,26 @@ def tso_pass(ctx, exe):
     ctx.coverage["mpmc_tso_runs"] = n
 
 
+def as_layer(ctx, why):
+    """the MPMC queue over hazard pointers as a layer of another property (C06: the semaphore's waiter queue; the model
+    of fiber_semaphore.c treats its operations as atomic): the queue's core theorems, its lock-step correspondence on the
+    current sources and its store-buffer pass become obligations of the calling check."""
+    core.coq_property(ctx, "Properties_C13.v", ["mpmc_exactly_once_fifo", "mpmc_pop_returns_oldest", "mpmc_empty_justified",
+                                                "mpmc_no_deref_reclaimed", "mpmc_aba_safe"])
+    exe = build(ctx)
+    if not exe:
+        return
+    dist = ctx.coverage.get("case_distribution")
+    nf = len(ctx.failures)
+    cases = corpus(ctx) + gen_cases(ctx, ctx.tier)
+    ctx.coverage["mpmc_layer"] = {"why": why, "cases": len(cases)}
+    ctx.coverage["case_distribution"] = dist
+    ok = core.correspond(ctx, "mpmc", "mpmchp", exe, cases, monitor)
+    if (not ok or len(ctx.failures) > nf) and not ctx.violations:
+        search(ctx, exe)
+    tso_pass(ctx, exe)
+
+
 def rand_prog(rng, n, joined):
     p = []
     for _ in range(n):
